@@ -276,7 +276,63 @@ def start_deck(rng):
     from pptx.opc.packuri import PackURI
 
     prs = Presentation()
-    kind = rng.choice(["default", "default", "scrambled"])
+    kind = rng.choice(["default", "default", "scrambled", "scrambled", "jump-only-slide", "foreign-part-rels"])
+    if kind == "jump-only-slide":
+        # a slide part that neither the slide-id list nor the presentation part's relationships mention and that only a
+        # slide jump from another slide keeps in the package; its number lies inside 1..N of the listed slides
+        from pptx.enum.shapes import MSO_SHAPE
+        for _ in range(rng.randint(3, 5)):
+            prs.slides.add_slide(prs.slide_layouts[rng.choice([5, 6])])
+        sl = list(prs.slides)
+        victim = rng.randrange(0, len(sl) - 1)
+        src = sl[-1]
+        src.shapes.add_shape(MSO_SHAPE.RECTANGLE, 0, 0, 9, 9).click_action.target_slide = sl[victim]
+        lst = prs.part._element.sldIdLst
+        sld = lst[victim]
+        rid = sld.rId
+        lst.remove(sld)
+        prs.part.rels.pop(rid)
+        b = io.BytesIO(); prs.save(b); b.seek(0)
+        return Presentation(b), "scrambled+jump-only-slide"
+    if kind == "foreign-part-rels":
+        # parts of content types python-pptx has no class for (theme, custom XML) that own relationships of their own:
+        # what other producers write; the targets are reachable through those parts only
+        for _ in range(rng.randint(0, 2)):
+            prs.slides.add_slide(prs.slide_layouts[rng.randrange(7)])
+        b = io.BytesIO(); prs.save(b)
+        z = zipfile.ZipFile(io.BytesIO(b.getvalue()))
+        o = io.BytesIO()
+        REL = "http://schemas.openxmlformats.org/package/2006/relationships"
+        with zipfile.ZipFile(o, "w", zipfile.ZIP_DEFLATED) as zo:
+            for n in z.namelist():
+                data = z.read(n)
+                if n == "[Content_Types].xml":
+                    t = data.decode("utf-8")
+                    for ext, ct in (("png", "image/png"), ("bin", "application/octet-stream")):
+                        if 'Extension="%s"' % ext not in t:
+                            t = t.replace("<Default ", '<Default Extension="%s" ContentType="%s"/><Default ' % (ext, ct), 1)
+                    t = t.replace("</Types>", '<Override PartName="/customXml/itemProps1.xml" ContentType="application/vnd.'
+                                  'openxmlformats-officedocument.customXmlProperties+xml"/></Types>')
+                    data = t.encode("utf-8")
+                if n == "ppt/_rels/presentation.xml.rels":
+                    t = data.decode("utf-8")
+                    t = t.replace("</Relationships>", '<Relationship Id="rId77" Type="http://schemas.openxmlformats.org/'
+                                  'officeDocument/2006/relationships/customXml" Target="../customXml/item1.xml"/></Relationships>')
+                    data = t.encode("utf-8")
+                zo.writestr(n, data)
+            themes = [n for n in z.namelist() if re.match(r"ppt/theme/theme\d+\.xml$", n)]
+            th = rng.choice(themes)
+            d, f = th.rsplit("/", 1)
+            zo.writestr(d + "/_rels/" + f + ".rels", '<?xml version="1.0" encoding="UTF-8" standalone="yes"?><Relationships xmlns="%s">'
+                        '<Relationship Id="rId1" Type="http://schemas.openxmlformats.org/officeDocument/2006/relationships/image" '
+                        'Target="../media/themeimg9.png"/></Relationships>' % REL)
+            zo.writestr("ppt/media/themeimg9.png", _img(7))
+            zo.writestr("customXml/item1.xml", "<a/>")
+            zo.writestr("customXml/_rels/item1.xml.rels", '<?xml version="1.0" encoding="UTF-8" standalone="yes"?><Relationships xmlns="%s">'
+                        '<Relationship Id="rId1" Type="http://schemas.openxmlformats.org/officeDocument/2006/relationships/'
+                        'customXmlProps" Target="itemProps1.xml"/></Relationships>' % REL)
+            zo.writestr("customXml/itemProps1.xml", '<ds:datastoreItem xmlns:ds="http://schemas.openxmlformats.org/officeDocument/2006/customXml" ds:itemID="{1}"/>')
+        return Presentation(io.BytesIO(o.getvalue())), "scrambled+foreign-part-rels"
     if kind == "scrambled":
         for _ in range(rng.randint(2, 4)):
             s = prs.slides.add_slide(prs.slide_layouts[rng.randrange(7)])
@@ -538,9 +594,12 @@ def slide_numbering(ctx):
             news.append(int(re.search(r"slide(\d+)\.xml", str(prs.slides.add_slide(prs.slide_layouts[6]).part.partname)).group(1)))
         if j == 0:
             len(prs.slides)
-        nums = sorted(int(re.search(r"slide(\d+)\.xml", str(p.partname)).group(1)) for p in prs.part.package.iter_parts() if isinstance(p, SlidePart))
+        num = lambda p: int(re.search(r"slide(\d+)\.xml", str(p.partname)).group(1))  # noqa
+        listed = [num(s_.part) for s_ in prs.slides]
+        lp = [s_.part for s_ in prs.slides]
+        unlisted = sorted(num(p) for p in prs.part.package.iter_parts() if isinstance(p, SlidePart) and not any(p is q for q in lp))
         lines.append(f"c02.slidenums {n} {k} {j}")
-        impl.append(f"{','.join(map(str, nums)) or '!'} {','.join(map(str, news)) or '!'}")
+        impl.append(" ".join(",".join(map(str, x)) or "!" for x in (listed, unlisted, news)))
         metas.append({"listed": n, "unlisted": k, "added": j})
         ctx.case(key=lines[-1])
         out = io.BytesIO(); prs.save(out)
